@@ -58,6 +58,8 @@ def strategy(params, shard, nshards):
         st.builds(lambda k, n: {"kind": "transpose", "key": k, "n": n}, st.sampled_from(KEYS), big),
         st.builds(lambda k, a, b: {"kind": "additive", "key": k, "a": a, "bs": [b]}, st.sampled_from(KEYS), big, big),
         st.builds(lambda a, b: {"kind": "cof", "a": a, "bs": [b]}, st.integers(0, 127), st.integers(0, 127)),
+        st.builds(lambda a, b: {"kind": "cof", "a": a, "bs": [b, b % 128, (128 + b) % 128, 127, 0]},
+                  st.integers(-300, 500), st.one_of(st.integers(-130, -1), st.integers(-300, 500))),
     )
 
 
